@@ -25,11 +25,24 @@ ParamNames == <<"a", "b", "c", "d">>
 DefaultOf  == [a |-> VStr("da"), b |-> VStr("db"), c |-> VStr("dc"), d |-> VStr("dd")]
 AltDefaultOf == [a |-> VStr("ea"), b |-> VInt(0), c |-> VStr("ec"), d |-> None]
 DefVal(sig, n) == IF sig.alt THEN AltDefaultOf[n] ELSE DefaultOf[n]      \* defaults belong to the function object
-Bad        == VStr("bad")                 \* the base function raises ValueError when it is handed this value
+Bad        == VStr("bad")                 \* the base function raises ValueError("bad") when it is handed this value
+\* "f raises" has many realisations: the base function fails in the way the marker value it is handed says - an
+\* exception with a message, without one (raise ValueError / a bare assert), with several arguments, raised by the
+\* interpreter (KeyError), of a user-defined subclass, StopIteration, a message full of format characters.  The law
+\* knows the exception only by its class.  Named deviation InterruptsPassThrough: KeyboardInterrupt, SystemExit and
+\* GeneratorExit are not failures of f (they are not Exceptions); no wrapper may turn them into a fallback.
+FailMarks  == <<"bad", "bad_bare", "bad_assert", "bad_args", "bad_key", "bad_sub", "bad_stop", "bad_fmt",
+                "bad_interrupt", "bad_exit", "bad_genexit">>
+ExcClassOf == [bad |-> "ValueError", bad_bare |-> "ValueError", bad_assert |-> "AssertionError", bad_args |-> "ValueError",
+               bad_key |-> "KeyError", bad_sub |-> "Oops", bad_stop |-> "StopIteration", bad_fmt |-> "ValueError",
+               bad_interrupt |-> "KeyboardInterrupt", bad_exit |-> "SystemExit", bad_genexit |-> "GeneratorExit"]
+InterruptClasses == {"KeyboardInterrupt", "SystemExit", "GeneratorExit"}
 Quiet      == VStr("quiet")               \* ... and returns None (without raising) when it is handed this one
 VDict(items) == <<"m", items>>            \* dict with string keys, items sorted by key (Values.tla)
 Unspecified  == <<"unspec", 0>>           \* the statement does not pin the outcome
 IsExc(r)   == r[1] = "exc"
+IsInterrupt(r) == IsExc(r) /\ r[2] \in InterruptClasses
+IsFailure(r)   == IsExc(r) /\ ~IsInterrupt(r)           \* "f raises" in the sense of the try_* clause
 
 PName(i)    == ParamNames[i]
 Params(sig) == {PName(i) : i \in 1..sig.npos}
@@ -67,10 +80,12 @@ ArgSpec(sig) == [args     |-> SubSeq(ParamNames, 1, sig.npos),
 \* The base function of the session returns all its bindings; it raises when it sees Bad and returns
 \* None when it sees Quiet (a lookup that misses, a procedure called for its effect).
 Passes(cc, v) == (\E i \in 1..Len(cc.pos) : cc.pos[i] = v) \/ (\E i \in 1..Len(cc.kw) : cc.kw[i][2] = v)
-HasBad(cc)   == Passes(cc, Bad)
+FailSet(cc)  == {i \in 1..Len(FailMarks) : Passes(cc, VStr(FailMarks[i]))}
+HasBad(cc)   == FailSet(cc) # {}
+FailClass(cc) == ExcClassOf[FailMarks[Min(FailSet(cc))]]       \* (the drivers pass at most one marker per call)
 HasQuiet(cc) == Passes(cc, Quiet)
 BaseOutcome(sig, cc) == IF ~Valid(sig, cc) THEN Raises("TypeError")
-                        ELSE IF HasBad(cc) THEN Raises("ValueError")
+                        ELSE IF HasBad(cc) THEN Raises(FailClass(cc))
                         ELSE IF HasQuiet(cc) THEN None ELSE Bind(sig, cc)
 
 \* the values every passed argument carries end up in the binding exactly once; the rest are defaults
@@ -99,9 +114,15 @@ Kinds   == Range(KindSeq)
 \* pd2np_exc = pd2np(exc = ['a', 'b', 'x']): the named parameters are exempt from the pandas -> numpy conversion;
 \* on non-pandas input there is nothing to convert, so it is as transparent as plain pd2np.
 BindKindSeq == KindSeq \o <<"try_list", "pd2np_exc">>
-ClassOf(kind) == IF kind \in {"try_none", "try_zero", "try_list"} THEN "try_value"
+\* Optional parameters of the try wrappers at non-default values: verbose = True / False (log the failure),
+\* repeat = n (try again first).  They are no part of the law: a layer is <<class, fallback>> whatever they are,
+\* and so is the outcome of every call.  (return_value = False switches the wrapper off and is outside the statement.)
+OptKindSeq  == <<"try_none_verbose", "try_zero_verbose", "try_none_silent", "try_none_repeat", "try_zero_repeat_verbose", "try_list_verbose">>
+ExcKindSeq  == BindKindSeq \o OptKindSeq
+ClassOf(kind) == IF kind \in {"try_none", "try_zero", "try_list"} \cup Range(OptKindSeq) THEN "try_value"
                  ELSE IF kind = "pd2np_exc" THEN "pd2np" ELSE kind
-ParOf(kind)   == IF kind = "try_zero" THEN VInt(0) ELSE IF kind = "try_list" THEN VLst(<<>>)
+ParOf(kind)   == IF kind \in {"try_zero", "try_zero_verbose", "try_zero_repeat_verbose"} THEN VInt(0)
+                 ELSE IF kind \in {"try_list", "try_list_verbose"} THEN VLst(<<>>)
                  ELSE IF kind = "pd2np_exc" THEN VLst(<<VStr("a"), VStr("b"), VStr("x")>>) ELSE None
 LayerOf(kind) == <<ClassOf(kind), ParOf(kind)>>
 Layers  == {LayerOf(k) : k \in Kinds}
@@ -134,15 +155,15 @@ TryIdx(chain) == {i \in 1..Len(chain) : IsTry(chain[i])}
 \* on non-containers and pd2np on non-pandas input change nothing
 LawOutcome(sig, chain, cc) ==
     LET r == BaseOutcome(sig, Effective(sig, chain, cc)) IN
-    IF IsExc(r) /\ TryIdx(chain) # {} THEN Fallback(chain[Max(TryIdx(chain))], sig, cc) ELSE r
+    IF IsFailure(r) /\ TryIdx(chain) # {} THEN Fallback(chain[Max(TryIdx(chain))], sig, cc) ELSE r
 
 \* --- mechanism: evaluate layer by layer, each layer calling the next ---------------------------
 RECURSIVE ChainEval(_, _, _)
 ChainEval(sig, chain, cc) ==
     IF chain = <<>> THEN BaseOutcome(sig, cc)
     ELSE LET ly == Head(chain) rest == Tail(chain) IN
-         CASE ly[1] = "try_value" -> (LET r == ChainEval(sig, rest, cc) IN IF IsExc(r) THEN ly[2] ELSE r)
-           [] ly[1] = "try_back"  -> (LET r == ChainEval(sig, rest, cc) IN IF IsExc(r) THEN FirstArg(sig, cc) ELSE r)
+         CASE ly[1] = "try_value" -> (LET r == ChainEval(sig, rest, cc) IN IF IsFailure(r) THEN ly[2] ELSE r)
+           [] ly[1] = "try_back"  -> (LET r == ChainEval(sig, rest, cc) IN IF IsFailure(r) THEN FirstArg(sig, cc) ELSE r)
            [] ly[1] = "kwargs_support" -> ChainEval(sig, rest, IF sig.varkw THEN cc ELSE DropUndeclared(sig, cc))
            [] OTHER -> ChainEval(sig, rest, cc)
 
@@ -206,19 +227,69 @@ Unhashable(v) == Tag(v) \in {"l", "m", "set"} \/ (Tag(v) = "t" /\ \E i \in 1..Le
 UnhashableCall(cc) == (\E i \in 1..Len(cc.pos) : Unhashable(cc.pos[i])) \/ (\E i \in 1..Len(cc.kw) : Unhashable(cc.kw[i][2]))
 
 \* ---------------------------------------------------------------------------------------------
-\* The session: one base function, a heap of wrapper objects, the memo of cache(base)
+\* (d) the caller's own objects: a binding (the dict getcallargs returned) belongs to the caller.  It may be
+\*     replayed any number of times, on f and on every wrapper of f, and edited by its owner in between; a call
+\*     has no memory and owns nothing of the caller: every replay is judged on the binding as it is at THAT moment
+\*     and leaves it as it was.
+\* ---------------------------------------------------------------------------------------------
+DHas(D, k)    == \E i \in 1..Len(Pay(D)) : Pay(D)[i][1] = k
+DGet(D, k)    == Pay(D)[CHOOSE i \in 1..Len(Pay(D)) : Pay(D)[i][1] = k][2]
+DSet(D, k, v) == VDict([i \in 1..Len(Pay(D)) |-> IF Pay(D)[i][1] = k THEN <<k, v>> ELSE Pay(D)[i]])      \* k is a key of D
+DPutLast(D, k, v) == IF DHas(D, k) THEN DSet(D, k, v) ELSE VDict(Append(Pay(D), <<k, v>>))               \* k sorts after every key of D
+\* the call a binding stands for: every (a, k) with getcallargs(f, *a, **k) = D gives f the same parameters;
+\* this one passes all of them by position
+CallOfBinding(sig, D) == [pos |-> [i \in 1..sig.npos |-> DGet(D, PName(i))] \o (IF sig.varargs THEN Pay(DGet(D, "args")) ELSE <<>>),
+                          kw  |-> IF sig.varkw THEN Pay(DGet(D, "kw")) ELSE <<>>]
+\* call_with_callargs(obj, D) == obj( *a, **k ) for the calls (a, k) that D binds.  (NoFirstArgument: when the first
+\* parameter holds its default, one of those calls leaves it out and try_back's fallback is not pinned.)
+ReplayLaw(sig, chain, D) ==
+    LET cc == CallOfBinding(sig, D) IN
+    IF /\ HasCls(chain, "try_back") /\ IsFailure(BaseOutcome(sig, cc))
+       /\ sig.npos >= 1 /\ sig.ndef = sig.npos /\ DGet(D, "a") = DefVal(sig, "a")
+    THEN Unspecified ELSE LawOutcome(sig, chain, cc)
+\* what the owner of a binding may do to it between two calls (in place); each edit turns the binding of one valid
+\* call into the binding of another valid call
+Edits == <<"set_first", "fail_first", "more_args", "more_kw">>
+EditOK(sig, D, e) == CASE e = "set_first"  -> sig.npos >= 1 /\ DGet(D, "a") # VInt(9)
+                       [] e = "fail_first" -> sig.npos >= 1 /\ DGet(D, "a") # VStr("bad_bare")
+                       [] e = "more_args"  -> sig.varargs /\ (LET xs == Pay(DGet(D, "args")) IN IF Len(xs) = 0 THEN TRUE ELSE xs[Len(xs)] # VInt(8))
+                       [] e = "more_kw"    -> sig.varkw /\ ~DHas(DGet(D, "kw"), "z")
+                       [] OTHER -> FALSE
+Edited(sig, D, e) == CASE e = "set_first"  -> DSet(D, "a", VInt(9))                                         \* D['a'] = 9
+                       [] e = "fail_first" -> DSet(D, "a", VStr("bad_bare"))                                 \* D['a'] = 'bad_bare'
+                       [] e = "more_args"  -> DSet(D, "args", VTup(Append(Pay(DGet(D, "args")), VInt(8))))   \* D['args'] += (8,)
+                       [] e = "more_kw"    -> DSet(D, "kw", DPutLast(DGet(D, "kw"), "z", VInt(7)))           \* D['kw']['z'] = 7
+                       [] OTHER -> D
+
+\* ---------------------------------------------------------------------------------------------
+\* (e) ready-made decorator OBJECTS: every wrapper class can be instantiated without a function (try_value(value = 0),
+\*     cache_func(), pd2np(exc = ...)) and the object applied to any number of functions.  The functions it was
+\*     applied to have nothing in common: each is the chain over ITS function, a cached one has ITS memo, and
+\*     calling one never evaluates another's function.  The session has two functions made from one code object:
+\*     function 1 = base, function 2 = its twin with the other default values (same calls valid, other results).
+\* ---------------------------------------------------------------------------------------------
+TwinOf(sig) == [sig EXCEPT !.alt = ~@]
+CacheLayer  == <<"cache", None>>
+
+\* ---------------------------------------------------------------------------------------------
+\* The session: one base function, a heap of wrapper objects, the memo of cache(base), the caller's bindings,
+\* the functions decorated by ready-made decorator objects
 \* ---------------------------------------------------------------------------------------------
 CONSTANT FixedCode       \* TRUE: the pointer heap follows the repaired wrapper.__init__, FALSE: today's
 VARIABLES base,          \* signature of the session's base function
           objs,          \* law level: the sequence of wrapper objects built so far, each one a chain
           cells, roots,  \* mechanism: the same objects as cells with pointers
           memo, evals,   \* the memo of cache(base) and the number of evaluations of base
+          store,         \* the caller's bindings (dicts returned by getcallargs), in the order they were obtained
+          dobjs,         \* functions decorated by ready-made decorator objects: [fn 1|2, chain, memo = keys evaluated]
           out            \* the last public call: <<"wrapped", new object>> or <<"ret", object, call, outcome>>
-                         \* (object 0 = the base function, -1 = the cached function cache(base))
-vars == <<base, objs, cells, roots, memo, evals, out>>
+                         \* (object 0 = the base function, -1 = the cached function cache(base)),
+                         \* <<"gca", object, call, binding>>, <<"cwc", object, binding number, outcome>>, <<"edit", binding number, edit>>,
+                         \* <<"decorated", new object>>, <<"dret", object, call, outcome, evaluations of <<fn 1, fn 2>> (-1 = not pinned)>>
+vars == <<base, objs, cells, roots, memo, evals, store, dobjs, out>>
 
 SessionInit(sig) == /\ base = sig /\ objs = <<>> /\ cells = <<>> /\ roots = <<>>
-                    /\ memo = <<>> /\ evals = 0 /\ out = <<"idle", 0>>
+                    /\ memo = <<>> /\ evals = 0 /\ store = <<>> /\ dobjs = <<>> /\ out = <<"idle", 0>>
 
 \* W(obj): allocate the normal form; nothing that exists changes
 Wrap(layer, target) ==
@@ -226,17 +297,68 @@ Wrap(layer, target) ==
     /\ objs' = WrapObjs(objs, layer, target)
     /\ LET m == MechWrap(cells, roots, layer, target, FixedCode) IN cells' = m.cells /\ roots' = m.roots
     /\ out' = <<"wrapped", Len(objs) + 1>>
-    /\ UNCHANGED <<base, memo, evals>>
+    /\ UNCHANGED <<base, memo, evals, store, dobjs>>
 \* obj( *pos, **kw ): a pure query (object 0 = the base function)
 Call(o, cc) ==
     /\ o \in 0..Len(objs)
     /\ out' = <<"ret", o, cc, LawOutcome(base, IF o = 0 THEN <<>> ELSE objs[o], cc)>>
-    /\ UNCHANGED <<base, objs, cells, roots, memo, evals>>
+    /\ UNCHANGED <<base, objs, cells, roots, memo, evals, store, dobjs>>
 \* cache(base)( *pos, **kw ) with the counting base function
 CallCached(cc) ==
     /\ Valid(base, cc) /\ ~HasBad(cc)
     /\ LET r == MemoCall(memo, evals, base, cc) IN memo' = r.memo /\ evals' = r.evals /\ out' = <<"ret", -1, cc, r.out>>
-    /\ UNCHANGED <<base, objs, cells, roots>>
+    /\ UNCHANGED <<base, objs, cells, roots, store, dobjs>>
+
+\* --- the caller's bindings -----------------------------------------------------------------------
+ChainOf(o) == IF o = 0 THEN <<>> ELSE objs[o]
+\* D = getcallargs(obj, *pos, **kw): a NEW dict for the caller; same binding through every wrapper ("reports f's
+\* argument specification")
+GetCallArgs(o, cc) ==
+    /\ o \in 0..Len(objs) /\ (Valid(base, cc) = TRUE)         \* (= TRUE: evaluated as a value, not split into branches by TLC)
+    /\ store' = Append(store, Bind(base, cc))
+    /\ out' = <<"gca", o, cc, Bind(base, cc)>>
+    /\ UNCHANGED <<base, objs, cells, roots, memo, evals, dobjs>>
+\* call_with_callargs(obj, D) with a binding the caller holds: a pure query of the binding as it is now
+Replay(o, i) ==
+    /\ o \in 0..Len(objs) /\ i \in 1..Len(store)
+    /\ out' = <<"cwc", o, i, ReplayLaw(base, ChainOf(o), store[i])>>
+    /\ UNCHANGED <<base, objs, cells, roots, memo, evals, store, dobjs>>
+\* the caller edits its own binding in place
+EditBinding(i, e) ==
+    /\ i \in 1..Len(store) /\ EditOK(base, store[i], e)
+    /\ store' = [store EXCEPT ![i] = Edited(base, @, e)]
+    /\ out' = <<"edit", i, e>>
+    /\ UNCHANGED <<base, objs, cells, roots, memo, evals, dobjs>>
+
+\* --- ready-made decorator objects ------------------------------------------------------------------
+FnSig(fn) == IF fn = 1 THEN base ELSE TwinOf(base)
+\* D(function fn): a new wrapper of THAT function
+Decorate(kind, fn) ==
+    /\ dobjs' = Append(dobjs, [fn |-> fn, chain |-> <<LayerOf(kind)>>, memo |-> <<>>])
+    /\ out' = <<"decorated", Len(dobjs) + 1>>
+    /\ UNCHANGED <<base, objs, cells, roots, memo, evals, store>>
+\* D(an object built earlier): a new wrapper in normal form over the same function.  (SharedMemo: it may share the
+\* memo of the cached function it was built from - its own memo is not pinned, see CountPinned.)
+Redecorate(kind, i) ==
+    /\ i \in 1..Len(dobjs)
+    /\ dobjs' = Append(dobjs, [fn |-> dobjs[i].fn, chain |-> NormalForm(LayerOf(kind), dobjs[i].chain), memo |-> <<>>])
+    /\ out' = <<"decorated", Len(dobjs) + 1>>
+    /\ UNCHANGED <<base, objs, cells, roots, memo, evals, store>>
+\* "exactly once per distinct combination" is pinned for cache(f) itself when no other cached wrapper of f exists
+CountPinned(i) == /\ dobjs[i].chain = <<CacheLayer>>
+                  /\ \A j \in 1..Len(dobjs) : (j # i /\ dobjs[j].fn = dobjs[i].fn) => ~HasCls(dobjs[j].chain, "cache")
+\* obj( *pos, **kw ) on a decorated function: the outcome is the law on ITS function; the OTHER function is not
+\* evaluated at all; its own function once for a new key and never for a key seen (when pinned)
+CallDecorated(i, cc) ==
+    /\ i \in 1..Len(dobjs)
+    /\ LET ob == dobjs[i]  sig == FnSig(ob.fn)
+           normal == ~IsExc(BaseOutcome(sig, Effective(sig, ob.chain, cc)))
+           hit == \E k \in 1..Len(ob.memo) : ob.memo[k] = cc
+           own == IF CountPinned(i) /\ normal THEN (IF hit THEN 0 ELSE 1) ELSE -1
+       IN /\ (ValidFor(sig, ob.chain, cc) = TRUE)
+          /\ out' = <<"dret", i, cc, LawOutcome(sig, ob.chain, cc), IF ob.fn = 1 THEN <<own, 0>> ELSE <<0, own>>>>
+          /\ dobjs' = [dobjs EXCEPT ![i].memo = IF HasCls(ob.chain, "cache") /\ normal /\ ~hit THEN Append(@, cc) ELSE @]
+    /\ UNCHANGED <<base, objs, cells, roots, memo, evals, store>>
 
 \* --- properties of the session ------------------------------------------------------------------
 \* history property: building a new wrapper never changes an object that already exists
@@ -252,4 +374,16 @@ MemoOncePerKey == /\ evals = Len(memo)
                   /\ \A i \in 1..Len(memo) : memo[i][2] = Result(base, memo[i][1], i)
 MemoStable == [][/\ Len(memo') >= Len(memo)
                  /\ \A i \in 1..Len(memo) : memo'[i] = memo[i]]_vars
+\* a call owns nothing of the caller: only the caller's own edit changes a binding it holds
+ArgumentsUntouched == [][/\ Len(store') >= Len(store)
+                         /\ \A i \in 1..Len(store) : store'[i] = store[i] \/ (out'[1] = "edit" /\ out'[2] = i)]_vars
+\* every binding the caller holds is the binding of a valid call, whatever it did to it
+BindingsAreBindings == \A i \in 1..Len(store) :
+                          /\ Valid(base, CallOfBinding(base, store[i]))
+                          /\ Bind(base, CallOfBinding(base, store[i])) = store[i]
+\* decorated functions: objects never change (but for the keys a memo has seen), no class twice, one memo entry per key
+DecoratedStable == [][/\ Len(dobjs') >= Len(dobjs)
+                      /\ \A i \in 1..Len(dobjs) : dobjs'[i].fn = dobjs[i].fn /\ dobjs'[i].chain = dobjs[i].chain]_vars
+DecoratedNormal == \A i \in 1..Len(dobjs) : /\ DistinctClasses(dobjs[i].chain)
+                                            /\ \A j, k \in 1..Len(dobjs[i].memo) : dobjs[i].memo[j] = dobjs[i].memo[k] => j = k
 =============================================================================
